@@ -8,13 +8,19 @@ double nondet_double(void);
 #ifdef __CPROVER__
 double vt_fmod(double x, double y)
 {
-    double r = nondet_double();
+    double r;
+    r = nondet_double();
     __CPROVER_assume(r == r && r - r == 0.0);
     double ax = x < 0 ? -x : x, ay = y < 0 ? -y : y, ar = r < 0 ? -r : r;
     __CPROVER_assume(ar < ay);
     __CPROVER_assume(!(ax < ay) || r == x);
     __CPROVER_assume(r == 0.0 || ((r < 0) == (x < 0)));
     __CPROVER_assume(ar <= ax);
+#ifdef VT_STUB_EXACT_REGION
+    /* second attempt after a counterexample that the real fmod does not reproduce: search only where the contract pins the
+     * value exactly (|x| < |y|, r == x), so that a counterexample found now replays natively */
+    __CPROVER_assume(ax < ay);
+#endif
     return r;
 }
 #else
